@@ -220,7 +220,7 @@ CHECKS = {
     "C18": dict(
         category="model_checking",
         text="Spec S10 (Session.tla): a process using xdis as a state machine over the shared tables with the public operations as actions; the design "
-             "properties are ResultsAreFunctions and TablesImmutable. TLC enumerates every history up to length 2 (quick) / 3 (thorough) over 28 "
+             "properties are ResultsAreFunctions and TablesImmutable. TLC enumerates every history up to length 2 (thorough: also every history of length 3 over 12 core operations) over 28 "
              "operations (loads of 1.5/2.7/3.8/3.12/3.13 files through both loader paths, disassemble_file in four formats, get_opcode, make_std_api, "
              "marsh, Python-2 marshal bodies, one version under two variants disassembling through the API object, a Dropbox-2.5 file, a corrupt "
              "file, a late import of an opcode module) plus seeded longer histories; each is replayed in a forked child of a "
